@@ -194,6 +194,11 @@ func (pkg *pkg) Add(call *call) (string, error) {
 		if !strings.HasPrefix(call.Name, p.GetPrefix()) {
 			continue
 		}
+		for i, arg := range call.Args {
+			if b, ok := arg.(*types.Basic); ok && b.Kind() == types.UntypedNil {
+				return "", fmt.Errorf("%s: argument number %d is an untyped nil, which has no type to derive a function for", call.Name, i)
+			}
+		}
 		generator := pkg.generators[p.Name()]
 		name, err := generator.Add(call.Name, call.Args)
 		if err != nil {
